@@ -198,6 +198,26 @@ def run(ctx):
                   "annotation it was gathered from change the stored definition" % ", ".join(origin_text(o) for o in bad),
                   desc="entry stores a fresh copy of its contents")
 
+    # ---------------- R9.6: validation works on a copy of the tag
+    ctx.rule("R9.6", "validators ask get_definition for a copy of the tag (validating never re-parents the live tag)")
+    n_gd = 0
+    for f in prog.functions.values():
+        if not f.module.name.startswith("hed.validator"):
+            continue
+        for c in walk_no_nested(f.node):
+            if isinstance(c, ast.Call) and call_name(c) == "get_definition" and isinstance(c.func, ast.Attribute):
+                n_gd += 1
+                kw = {k.arg: k.value for k in c.keywords if k.arg}
+                flag = kw.get("return_copy_of_tag")
+                if flag is None and len(c.args) >= 3:
+                    flag = c.args[2]
+                ok = isinstance(flag, ast.Constant) and flag.value is True
+                ctx.check(ok, "R9.6", f.qualname, c, loc(f, c),
+                          "a validator obtains the expansion without return_copy_of_tag=True: get_definition then puts the live "
+                          "Def tag into a throw-away group (re-parenting it), so expand_defs()/shrink_defs() after validate() "
+                          "act on a detached tag", desc="%s validates against a copy of the tag" % f.short)
+    ctx.floor("R9.6", "get_definition calls in validators", n_gd, 1)
+
     # ---------------- R9.5: a copy of a tag does not share its cached expansion / flag with the original
     ctx.rule("R9.5", "HedTag.__deepcopy__ deep-copies the cached expansion, its flag and the parent link")
     dc = tag.methods.get("__deepcopy__")
